@@ -337,11 +337,17 @@ func (t *BoltTransport) cleanup(bucket *bolt.Bucket, lastID uint64) error {
 
 	removeUntil := lastID - t.size
 	c := bucket.Cursor()
+	// Deleting while iterating makes the cursor skip keys: collect first, delete afterwards
+	var keys [][]byte
 	for k, _ := c.First(); k != nil; k, _ = c.Next() {
 		if binary.BigEndian.Uint64(k[:8]) > removeUntil {
 			break
 		}
 
+		keys = append(keys, append([]byte(nil), k...))
+	}
+
+	for _, k := range keys {
 		if err := bucket.Delete(k); err != nil {
 			return fmt.Errorf("unable to delete value in Bolt DB: %w", err)
 		}
